@@ -326,6 +326,37 @@ func campaignC11(p *Parser, req *Request, resp *Response) {
 				sets = append(sets, []kernel.Fault{{Site: e.Site, N: e.N, Kind: faultKinds[simrt.Choose(5)]}})
 			}
 		}
+		// every site that ran more than once at one offset gets one set that makes
+		// all those invocations return the same message (de-duplication, and
+		// errors first seen on an abandoned path recurring on the kept one)
+		bySiteOff := map[[2]int][]int{}
+		var order [][2]int
+		for i := range evs {
+			k := [2]int{evs[i].Site, evs[i].Off}
+			if len(bySiteOff[k]) == 0 {
+				order = append(order, k)
+			}
+			bySiteOff[k] = append(bySiteOff[k], i)
+		}
+		nsame := 0
+		for _, k := range order {
+			idx := bySiteOff[k]
+			if len(idx) < 2 || nsame >= 8 {
+				continue
+			}
+			nsame++
+			var set []kernel.Fault
+			for _, i := range idx {
+				set = append(set, kernel.Fault{Site: evs[i].Site, N: evs[i].N, Kind: "errdup"})
+			}
+			sets = append(sets, set)
+			resp.stat("same_site_same_offset_sets", 1)
+			// and without the first invocation: the first recorded occurrence may then
+			// lie on a path that is abandoned later
+			if len(set) > 1 {
+				sets = append(sets, append([]kernel.Fault(nil), set[1:]...))
+			}
+		}
 		if len(evs) > 0 {
 			for j := 0; j < req.MultiSets; j++ {
 				n := 2 + simrt.Choose(5)
